@@ -71,10 +71,19 @@ def handleF (f : Passage.Extracted.ListenerFacts) (toks : List String) : Option 
     let cfgexp ← kvNat r "cfgexp"
     let age ← kvNat r "age"
     let same ← kvNat r "same"
-    let cc := connCfg (plumbingOf f) ⟨0, cfgexp, some [1], 0⟩
+    let nosecret := (kvNat r "nosecret").getD 0
+    let cc := connCfg (plumbingOf f) ⟨0, cfgexp, if nosecret = 1 then none else some [1], 0⟩
     match cc.secret with
     | none => some "norequest"
     | some _ => some (if same = 1 ∧ age ≤ cc.expiry then "accept" else "reject")
+  | "c14.issued" :: r => do
+    -- a cookie issued now by this server (timestamp = now, in seconds) and presented `wait` seconds later
+    let cfgexp ← kvNat r "cfgexp"
+    let wait ← kvNat r "wait"
+    let cc := connCfg (plumbingOf f) ⟨0, cfgexp, some [1], 0⟩
+    match cc.secret with
+    | none => some "noissue"
+    | some _ => some (if wait ≤ cc.expiry then "accept" else "reject")
   | "c14.deadline" :: r => do
     let timeout ← kvNat r "timeout"
     let proxy ← kvNat r "proxy"
